@@ -276,7 +276,9 @@ def ctor_fields(facts, e):
         return e[2], dict(zip(e[4], e[3])) if e[4] else {str(i): x for i, x in enumerate(e[3])}
     if e[0] == "call":
         c = facts.by_spath.get(strip_generics(e[1]), [])
-        if len(c) == 1 and not c[0].is_closure and not any(True for _ in c[0].calls()):
+        # a straight-line constructor: one path, the result is a struct literal over its parameters (it may call
+        # other pure constructors for the fields: `AtomicI64::new(max_cost)`, `HashMap::with_hasher(hasher)`)
+        if len(c) == 1 and not c[0].is_closure and not any((c[0].term(bi_) or {}).get("k") == "switch" for bi_ in c[0].live_blocks()):
             b = c[0]
             try:
                 r = norm(return_expr(b))
